@@ -42,8 +42,9 @@ FormatClauses(r) ==
 (***************************************************************************)
 (* C12: what a pattern carries                                             *)
 (***************************************************************************)
-HasRun(p, c) == \E i \in 1..Len(Tokens(p)) : Tokens(p)[i].k = "run" /\ Tokens(p)[i].c = c
-RunWidth(p, c) == LET i == CHOOSE j \in 1..Len(Tokens(p)) : Tokens(p)[j].k = "run" /\ Tokens(p)[j].c = c IN Tokens(p)[i].w
+\* (p below is the TOKEN SEQUENCE of the pattern, computed once per record)
+HasRun(p, c) == \E i \in 1..Len(p) : p[i].k = "run" /\ p[i].c = c
+RunWidth(p, c) == LET i == CHOOSE j \in 1..Len(p) : p[j].k = "run" /\ p[j].c = c IN p[i].w
 Has(p, ty, c) == c \in SymbolsOf(ty) /\ HasRun(p, c)
 
 CarriesYear(p, ty) == Has(p, ty, "y") /\ RunWidth(p, "y") # 2
@@ -89,8 +90,7 @@ NeedsTerminator(t, ty) ==
 FieldGroup(c) == CASE c \in {"h", "H", "K", "k"} -> "hour" [] c \in {"a", "b"} -> "period" [] c \in {"X", "x"} -> "zone" [] OTHER -> c
 
 Unambiguous(p, ty, v) ==
-  LET T == Tokens(p)  n == Len(T) IN
-  /\ Balanced(p)
+  LET T == p  n == Len(T) IN
   /\ \A i \in 1..n, j \in 1..n : (i < j /\ IsSym(T[i], ty) /\ IsSym(T[j], ty)) => FieldGroup(T[i].c) # FieldGroup(T[j].c)
   /\ \A i \in 1..n : NeedsTerminator(T[i], ty) => (i = n \/ ~IsDigit(FirstChar(T[i + 1], v, ty)))
   \* a width-5 zone offset may end in ":ss": a following ":" would be ambiguous
@@ -136,11 +136,14 @@ Recon(p, ty, v) ==
              ns |-> IF ty = "date" THEN 0 ELSE (v.ns \div cut) * cut,
              off |-> IF ty # "date" /\ ZoneSym(p, ty) # "" THEN v.off ELSE 0]]
 
-JudgedC12(r) ==
+DeterministicT(T, v, ty) == \A i \in 1..Len(T) : LET rs == RenderTok(T[i], v, ty) IN
+                                                     AnyMark \notin rs /\ \A a \in rs, b \in rs : a = b
+JudgedT(r, T) ==
   LET vw == ViewOf(r.val)  ty == r.val.ty IN
-  /\ vw.ok /\ IsText(r.s) /\ Unambiguous(r.p, ty, vw.v)
-  /\ LET rc == Recon(r.p, ty, vw.v) IN
-        rc.ok /\ Deterministic(r.p, rc.v, ty) /\ Format(r.p, rc.v, ty) = r.s
+  /\ vw.ok /\ IsText(r.s) /\ Unambiguous(T, ty, vw.v)
+  /\ LET rc == Recon(T, ty, vw.v) IN
+        rc.ok /\ DeterministicT(T, rc.v, ty) /\ FormatFrom(T, 1, rc.v, ty) = r.s
+JudgedC12(r) == LET tk == Tokenize(r.p) IN tk.balanced /\ JudgedT(r, tk.toks)
 
 SameValue(val, r) ==
   CASE val.ty = "date" -> r.dn = val.dn /\ "rem" \notin DOMAIN r
@@ -148,8 +151,8 @@ SameValue(val, r) ==
     [] val.ty = "time" -> r.nod = TodWide([sod |-> val.sod, ns |-> val.ns]) /\ r.off = val.off
 
 RoundTripClauses(r) ==
-  LET p == r.p  ty == r.val.ty  vw == ViewOf(r.val) IN
-  IF ~JudgedC12(r) THEN {}
+  LET tk == Tokenize(r.p)  p == tk.toks  ty == r.val.ty  vw == ViewOf(r.val) IN
+  IF ~(tk.balanced /\ JudgedT(r, p)) THEN {}
   ELSE IF r.r.k # "ok" THEN {"C12.parse_fails"}
   ELSE
    (IF r.s2 = r.s THEN {} ELSE {"C12.reformat_differs"})
@@ -231,6 +234,10 @@ DefaultFormClauses(r) ==
                  ELSE IF r.back.k = "ok" /\ r.back.dn = r.val.dn /\ r.back.sod = r.val.sod /\ r.back.off = r.val.off
                  THEN {} ELSE {"C20.serde_datetime"})
 
+\* C14: every outcome is Ok (a valid in-range value) or Err; never a panic
+NoPanicClauses(r) == IF r.res.k = "panic" THEN {"C14.panic"}
+                     ELSE IF r.res.k = "ok" /\ ~r.res.valid THEN {"C14.ok_but_invalid"} ELSE {}
+
 Explain(r) ==
   IF r.op = "format" /\ ViewOf(r.val).ok /\ Deterministic(r.p, ViewOf(r.val).v, r.val.ty)
   THEN Format(r.p, ViewOf(r.val).v, r.val.ty) ELSE <<>>
@@ -240,6 +247,7 @@ Failed(r) == CASE r.op = "format" -> FormatClauses(r)
                [] r.op = "rfc_write" -> RfcWriteClauses(r)
                [] r.op = "rfc_read" -> RfcReadClauses(r)
                [] r.op \in {"display", "fromstr", "serde"} -> DefaultFormClauses(r)
+               [] r.op \in {"parse_any", "format_any", "rfc_any", "fromstr_any", "serde_any", "cron_any"} -> NoPanicClauses(r)
 
 BadIdx == {i \in 1..Len(Rec) : Failed(Rec[i]) # {}}
 BadSeq == LET idx == SetToSeq(BadIdx)
